@@ -31,6 +31,12 @@ def jobs_for(prop):
                 for warm in (False, True):
                     jobs.append({"id": f"{prop}-inflight-{mode}-{change}-{via}-{'warm' if warm else 'cold'}", "prop": prop,
                                  "mode": mode, "change": change, "via": via, "warm": warm})
+    if prop == "C05":
+        # the method registered during the call is the function's first type[...] method; the recursion passes a class
+        for via in ("recurse", "name"):
+            for warm in (False, True):
+                jobs.append({"id": f"C05-inflight-plain-register-{via}-{'warm' if warm else 'cold'}-typearg", "prop": prop,
+                             "mode": "plain", "change": "register", "via": via, "warm": warm, "typearg": True})
     return jobs
 
 
